@@ -103,9 +103,9 @@ func zvLeftBy(t zvSessTrace, hist []string) string {
 func TestVerifC07(t *testing.T) {
 	r := vh.Start(t, "C07")
 	defer r.Finish()
-	depth := 4
+	depth := 5
 	if r.Thorough() {
-		depth = 6
+		depth = 7
 	}
 	r.Rule(fmt.Sprintf("BFS over all event histories (alphabet of %d session events: clock steps, received OPEN/KEEPALIVE/UPDATE/NOTIFICATION/malformed, write failure, manual stop, disposal, dial failure, foreign Loc-RIB change) "+
 		"up to depth %d from two roots (initial state; established session holding a learned route) per session configuration, each history replayed on a fresh real bgpServer under the virtual runtime (bound 0); oracle in every state", len(zvSessAlphabet), depth))
